@@ -605,6 +605,23 @@ func directedMerc() []mercIn {
 			out = append(out, in)
 		}
 	}
+	// each of the three consensus prices alone outside the on-chain [min, max] (seeded C07-D): no report may go out
+	for ver := 1; ver <= 4; ver++ {
+		for _, tr := range [][3]int64{{996, 999, 1002}, {-3, 1, 4}, {990, 1001, 1003}, {-2, -1, 5}, {996, 999, 1000}, {0, 1, 4}} {
+			in := mercIn{Cfg: mercCfg{Ver: ver, F: 1, Min: "0", Max: "1000", Window: 10, MaxLen: 400}}
+			rd := mercRound{Mode: "ok", Prev: "none"}
+			for i := 0; i < 4; i++ {
+				o := mercObs{Honest: true, Ts: 3000 + uint32(i), PV: true, Bm: i192(big.NewInt(tr[1])), Bid: i192(big.NewInt(tr[0])), Ask: i192(big.NewInt(tr[2])),
+					MfV: true, Mf: 100, LV: true, Link: i192(big.NewInt(1)), NV: true, Native: i192(big.NewInt(2)), SV: true, Status: 2}
+				if ver == 1 {
+					o.Blocks = []mblk{{Num: 5000, Hash: make([]byte, 32), Ts: 1200}}
+				}
+				rd.Obs = append(rd.Obs, o)
+			}
+			in.Rounds = []mercRound{rd}
+			out = append(out, in)
+		}
+	}
 	// bootstrap with failed max-finalized fetches (seeded C09-C): k observers agree on a valid value, the other
 	// n-k carry the invalid flag (and whatever number, here 0 / -1 / the same value): an invalid entry is not a vote
 	for ver := 1; ver <= 4; ver++ {
